@@ -719,6 +719,23 @@ func TestVerifC09Atomic(t *testing.T) {
 		sort.Ints(o.Closed)
 		return o
 	}
+	// every operation has to return, also when it runs alone: a sequential run that does not return within 5 s is recorded
+	// as a hang (the property's "never deadlock") and ends the phase - the stuck goroutine still holds the lock
+	seq := func(w *world, first, second op) (r1, r2 string, ok bool) {
+		done := make(chan struct{})
+		go func() {
+			defer close(done)
+			r1 = first.run(w)
+			r2 = second.run(w)
+		}()
+		select {
+		case <-done:
+			return r1, r2, true
+		case <-time.After(5 * time.Second):
+			return "", "", false
+		}
+	}
+	empty := c09LinOutcome{Numbers: []uint64{}, Served: []int{}, Closed: []int{}}
 	for _, a := range ops {
 		for _, b := range ops {
 			if a.name == b.name {
@@ -727,14 +744,22 @@ func TestVerifC09Atomic(t *testing.T) {
 			var s12, s21 c09LinOutcome
 			{
 				w := mk()
-				r1 := a.run(w)
-				r2 := b.run(w)
+				r1, r2, ok := seq(w, a, b)
+				if !ok {
+					out.Emit(c09LinObs{Kind: "linpair", Op1: a.name, Op2: b.name, GateAt: 0, Seq12: empty, Seq21: empty, Inter: empty, Outcome: "hang",
+						Detail: "run one after the other on an otherwise idle epoch set, the two operations did not return"})
+					return
+				}
 				s12 = snap(w, r1, r2)
 			}
 			{
 				w := mk()
-				r2 := b.run(w)
-				r1 := a.run(w)
+				r2, r1, ok := seq(w, b, a)
+				if !ok {
+					out.Emit(c09LinObs{Kind: "linpair", Op1: b.name, Op2: a.name, GateAt: 0, Seq12: empty, Seq21: empty, Inter: empty, Outcome: "hang",
+						Detail: "run one after the other on an otherwise idle epoch set, the two operations did not return"})
+					return
+				}
 				s21 = snap(w, r1, r2)
 			}
 			// how many lock acquisitions does op1 make?
